@@ -42,6 +42,8 @@
 #include "common.hpp"
 #include "c18.hpp"
 #include "c18_tok.hpp"
+#include <functional>
+#include <map>
 #include <boost/archive/impl/basic_text_oarchive.ipp>
 #include <boost/archive/impl/text_oarchive_impl.ipp>
 #include <boost/archive/impl/archive_serializer_map.ipp>
@@ -123,6 +125,7 @@ static std::string show(Data<RealVector>& d){
 		auto& m = d.batch(b);
 		if(b) os << ",";
 		os << m.size1() << "x" << m.size2() << ":";
+		if(m.size1() * m.size2() != 0 && m.raw_storage().values == nullptr){ os << "NO-VALUES"; continue; }   // never read storage that is not there
 		for(std::size_t i = 0; i != m.size1(); ++i){ os << "["; for(std::size_t j = 0; j != m.size2(); ++j){ if(j) os << " "; os << vh::intval(m(i,j)); } os << "]"; }
 	}
 	os << "]#" << d.shape().numElements(); return os.str();
@@ -162,9 +165,15 @@ static std::string show(Data<unsigned int>& d){
 	os << "]#" << d.shape().numElements(); return os.str();
 }
 
+static std::string tokenString(std::string t){
+	for(char& c: t) if(c == '\n' || c == '\r') c = ' ';
+	while(!t.empty() && t.back() == ' ') t.pop_back();
+	for(char& c: t) if(c == ' ') c = ',';
+	return " tokens=" + t;
+}
 template<class T> static std::string tokensOf(T const& o){
 	std::ostringstream ss;
-	{ c18::polymorphic_tok_oarchive oa(ss); OutArchive& ar = oa; ar << o; }
+	{ c18::polymorphic_tok_oarchive oa(ss); oa.emit_ptr = false; OutArchive& ar = oa; ar << o; }
 	std::string t = ss.str();
 	for(char& c: t) if(c == '\n' || c == '\r') c = ' ';
 	while(!t.empty() && t.back() == ' ') t.pop_back();
@@ -244,6 +253,94 @@ static std::string runDs(std::vector<std::string> const& t){
 		return head + dsHistory(orig, binary, [](D& d){ return show(d.data().inputs()) + " labels " + show(d.data().labels()) + " weights " + show(d.weights()); },
 			[&](D& d){ Data<CompressedRealVector> x; Data<unsigned int> y; Data<double> w; fillSparse(x, other, dim + 1, seed + 7, false); fillLabels(y, other, seed + 3); fillWeights(w, other, seed + 3); d = D(L(x, y), w); }, true);
 	}
+	return "bad-op";
+}
+
+// ---- several objects that SHARE batches in ONE archive (copies of Data are shallow) -------------------------
+//   shr <variant> <fmt> <dense|sparse> <dim> <seed> <batch sizes...>
+//   autoenc     LabeledData<E,E>(x, x)                      labels = inputs
+//   copy        x and a copy of x                            written one after the other
+//   subset      x, a copy, the subset of the even batches    three objects sharing batches
+//   selfappend  y = x; y.append(x)                           the same batch at two positions of one container
+//   twolabeled  LabeledData(x, r1), LabeledData(x, r2)       two labelled sets with the same inputs
+// The targets are USED objects that share batches among themselves in another pattern. Oracle: EVERY object of
+// the archive comes back with the same elements, batch structure and shape. Printed: every restored container,
+// the identity pattern of the restored batches (ordinal of the batch object per position), the token stream.
+template<class E, class Fill>
+static std::string sharedCase(std::string const& variant, bool binary, Fill fill){
+	typedef Data<E> D; typedef LabeledData<E, E> L;
+	D x, r1, r2, y, z; fill(x, 0); fill(r1, 1); fill(r2, 2);
+	D tx, ty, tz; fill(tx, 5); ty = tx; tz = tx;          // used targets, sharing all their batches
+	L l1, l2, tl1(tx, tx), tl2(tx, tx);
+	std::vector<D*> orig, rest;
+	std::function<void(OutArchive&)> wr; std::function<void(InArchive&)> rd;
+	if(variant == "autoenc"){
+		l1 = L(x, x);
+		wr = [&](OutArchive& o){ o << l1; }; rd = [&](InArchive& i){ i >> tl1; };
+		orig = {&l1.inputs(), &l1.labels()}; rest = {&tl1.inputs(), &tl1.labels()};
+	}else if(variant == "copy" || variant == "subset"){
+		y = x;
+		std::vector<std::size_t> even; for(std::size_t b = 0; b < x.numberOfBatches(); b += 2) even.push_back(b);
+		z = x.indexedSubset(even);
+		bool sub = variant == "subset";
+		wr = [&, sub](OutArchive& o){ o << x; o << y; if(sub) o << z; }; rd = [&, sub](InArchive& i){ i >> tx; i >> ty; if(sub) i >> tz; };
+		orig = {&x, &y}; rest = {&tx, &ty}; if(sub){ orig.push_back(&z); rest.push_back(&tz); }
+	}else if(variant == "selfappend"){
+		y = x; y.append(x);
+		wr = [&](OutArchive& o){ o << y; }; rd = [&](InArchive& i){ i >> ty; };
+		orig = {&y}; rest = {&ty};
+	}else if(variant == "twolabeled"){
+		l1 = L(x, r1); l2 = L(x, r2);
+		wr = [&](OutArchive& o){ o << l1; o << l2; }; rd = [&](InArchive& i){ i >> tl1; i >> tl2; };
+		orig = {&l1.inputs(), &l1.labels(), &l2.inputs(), &l2.labels()}; rest = {&tl1.inputs(), &tl1.labels(), &tl2.inputs(), &tl2.labels()};
+	}else return "bad-op";
+	std::vector<std::string> A; for(D* d: orig) A.push_back(show(*d));
+	std::stringstream ss(std::ios::in | std::ios::out | std::ios::binary);
+	if(binary){
+		{ boost::archive::polymorphic_binary_oarchive oa(ss); OutArchive& o = oa; wr(o); }
+		{ boost::archive::polymorphic_binary_iarchive ia(ss); InArchive& i = ia; rd(i); }
+	}else{
+		{ boost::archive::polymorphic_text_oarchive oa(ss); OutArchive& o = oa; wr(o); }
+		{ boost::archive::polymorphic_text_iarchive ia(ss); InArchive& i = ia; rd(i); }
+	}
+	std::ostringstream ts; { c18::polymorphic_tok_oarchive oa(ts); OutArchive& o = oa; wr(o); }
+	std::string out = "objs=", tag;
+	std::map<const void*, std::size_t> ord; std::string ids = " ids=";
+	for(std::size_t k = 0; k != rest.size(); ++k){
+		std::string B = show(*rest[k]);
+		out += (k ? " || " : "") + B;
+		if(B != A[k] && tag.empty()) tag = " !oracle shared-batches-object-" + std::to_string(k) + "-differs";
+		ids += k ? "|" : "";
+		for(std::size_t b = 0; b != rest[k]->numberOfBatches(); ++b){
+			const void* addr = &rest[k]->batch(b);
+			std::size_t id = ord.emplace(addr, ord.size()).first->second;
+			ids += (b ? " " : "") + std::to_string(id);
+		}
+	}
+	// the originals share exactly where the restored ones do
+	std::map<const void*, std::size_t> ordO; std::string idsO = " ids=";
+	for(std::size_t k = 0; k != orig.size(); ++k){
+		idsO += k ? "|" : "";
+		for(std::size_t b = 0; b != orig[k]->numberOfBatches(); ++b){
+			std::size_t id = ordO.emplace(&orig[k]->batch(b), ordO.size()).first->second;
+			idsO += (b ? " " : "") + std::to_string(id);
+		}
+	}
+	if(tag.empty() && ids != idsO) tag = " !oracle sharing-pattern-differs";
+	for(std::size_t k = 0; k != orig.size(); ++k) if(tag.empty() && show(*orig[k]) != A[k]) tag = " !oracle original-changed-by-write";
+	return out + ids + tokenString(ts.str()) + tag;
+}
+static std::string runShared(std::vector<std::string> const& t){
+	std::string variant = t[1]; bool binary = t[2] == "binary"; std::string kind = t[3];
+	std::size_t dim = std::stoull(t[4]), seed = std::stoull(t[5]);
+	std::vector<std::size_t> bs;
+	for(std::size_t i = 6; i < t.size(); ++i) bs.push_back(std::stoull(t[i]));
+	std::vector<std::size_t> other{1, 2};
+	std::string head = "shr " + variant + " " + kind + " ";
+	if(kind == "dense")
+		return head + sharedCase<RealVector>(variant, binary, [&](Data<RealVector>& d, std::size_t k){ if(k == 5) fillDense(d, other, dim + 1, seed + 11); else fillDense(d, bs, dim, seed + 13 * k); });
+	if(kind == "sparse")
+		return head + sharedCase<CompressedRealVector>(variant, binary, [&](Data<CompressedRealVector>& d, std::size_t k){ if(k == 5) fillSparse(d, other, dim + 1, seed + 11, false); else fillSparse(d, bs, dim, seed + 13 * k, true); });
 	return "bad-op";
 }
 
@@ -442,6 +539,8 @@ static std::string runObj(std::string const& label, bool binary){
 	if(r != "bad-op") return r;
 	r = c18::runMoo(label, binary);
 	if(r != "bad-op") return r;
+	r = c18::runMisc(label, binary);
+	if(r != "bad-op") return r;
 	return c18::runOptimizer(label, binary);
 }
 
@@ -454,6 +553,7 @@ int main(){
 		try{
 			if(t[0] == "ds" && t.size() >= 5) out = runDs(t);
 			else if(t[0] == "obj" && t.size() == 4) out = runObj(t[1], t[2] == "binary");
+			else if(t[0] == "shr" && t.size() >= 6) out = runShared(t);
 			else if(t[0] == "vec" && t.size() >= 3) out = runVec(t);
 			else if(t[0] == "wrap" && t.size() == 4) out = runWrap(t);
 		}catch(std::exception const& e){
